@@ -183,9 +183,11 @@ pub struct FloodReport {
     pub rst_ids: Vec<u32>,
     pub ended_ids: Vec<u32>,
     pub closed_by_e: bool,
+    pub big_list_size: usize,
 }
 
 struct FloodState {
+    big_list_size: usize,
     small_frame_overhead: u64,
     target: u32,
     parent: u32,
@@ -264,6 +266,45 @@ fn flood_item(p: &mut RawPeer, sc: &FloodScenario, st: &mut FloodState, i: usize
             }
             true
         }
+        "big-headers" if sc.variant == 3 => {
+            // A list of about 2.4 x max_header_list_size cut at field boundaries so that every single frame decodes
+            // to less than 0.8 x the limit: only accounting that is carried across the frames of a block sees it.
+            let sid = p.alloc_sid();
+            let mhls = sc.cfg.max_header_list_size.unwrap_or(16 << 20) as usize;
+            let mut fields = request_fields(vp, "GET", i);
+            let mut cost: usize = fields.iter().map(|(n, v)| n.len() + v.len() + 32).sum();
+            let mut k = 0;
+            while cost < mhls * 12 / 5 {
+                let fl = f(&format!("x-big-{}-{}", i, k), "0123456789abcdefghij");
+                cost += fl.0.len() + fl.1.len() + 32;
+                fields.push(fl);
+                k += 1;
+            }
+            let mut frags: Vec<Vec<u8>> = vec![Vec::new()];
+            let mut in_frag = 0usize;
+            for fl in &fields {
+                let c = fl.0.len() + fl.1.len() + 32;
+                if in_frag + c > mhls * 4 / 5 && !frags.last().unwrap().is_empty() {
+                    frags.push(Vec::new());
+                    in_frag = 0;
+                }
+                in_frag += c;
+                let part = p.encode_block(std::slice::from_ref(fl));
+                frags.last_mut().unwrap().extend_from_slice(&part);
+            }
+            let n = frags.len();
+            for (j, fr) in frags.iter().enumerate() {
+                let last = j + 1 == n;
+                if j == 0 {
+                    raw_frame(T_HEADERS, F_END_STREAM | if last { F_END_HEADERS } else { 0 }, sid, fr, out);
+                } else {
+                    raw_frame(T_CONTINUATION, if last { F_END_HEADERS } else { 0 }, sid, fr, out);
+                }
+            }
+            st.big_list_size = st.big_list_size.max(cost);
+            st.done = i >= 2;
+            true
+        }
         "big-headers" => {
             let sid = p.alloc_sid();
             let mut fields = request_fields(vp, "GET", i);
@@ -275,6 +316,7 @@ fn flood_item(p: &mut RawPeer, sc: &FloodScenario, st: &mut FloodState, i: usize
             // cut at the frame-size limit, or into many small CONTINUATION frames (each far below any limit)
             let frag = if sc.variant % 2 == 0 { mfs } else { 100 + rng.usize_below(300) };
             headers(sid, &block, true, None, None, frag.min(block.len()), frag, out);
+            st.big_list_size = st.big_list_size.max(fields.iter().map(|(n, v)| n.len() + v.len() + 32).sum());
             st.done = i >= 2;
             true
         }
@@ -425,7 +467,7 @@ async fn flood_peer(mut p: RawPeer, sc: FloodScenario, len: usize, rep: Rc<RefCe
     if sc.withhold_window {
         p.auto_grant = false;
     }
-    let mut st = FloodState { small_frame_overhead: 0, target: 0, parent: 0, next_promised: 2, cyc: 0, done: false };
+    let mut st = FloodState { big_list_size: 0, small_frame_overhead: 0, target: 0, parent: 0, next_promised: 2, cyc: 0, done: false };
     // ---- prelude: reach the state the flood needs
     if sc.e_server {
         match sc.kind {
@@ -538,6 +580,7 @@ async fn flood_peer(mut p: RawPeer, sc: FloodScenario, len: usize, rep: Rc<RefCe
         r.e_read_after_flood = e_read_total(&p);
         r.sent_after_flood = r.bytes_sent;
         r.small_frame_overhead = st.small_frame_overhead;
+        r.big_list_size = st.big_list_size;
         // outcome as seen right after the flood (before the epilogue lets the application go on)
         r.goaway_codes = p.sh.e_goaways.iter().map(|g| g.1).collect();
         r.target_rst_after_flood = p.sh.streams.get(&st.target).and_then(|x| x.rst);
@@ -653,13 +696,13 @@ fn run_one(sc: &FloodScenario, len: usize) -> (Outcome, FloodReport, RunPeaks) {
         // C18: a request whose header list is far beyond max_header_list_size never reaches the application,
         // however the block was cut into frames
         if scn.e_server && scn.kind == "big-headers" && rep_for_judge.prelude_ok {
-            let est_list = 60usize * len;
+            let est_list = rep_for_judge.big_list_size;
             let mhls = scn.cfg.max_header_list_size.unwrap_or(16 << 20) as usize;
             if est_list > 2 * mhls {
                 stats.inc("flood.oversized_header_lists_sent");
                 let accepted: Vec<u32> = mon::apis(view.evs()).filter(|(_, a)| a.side == Side::Server && a.op == Op::Accept && a.phase == Phase::Ret && matches!(a.res, Res::Ok)).map(|(_, a)| a.sid).collect();
                 if let Some(sid) = rep_for_judge.opened_ids.iter().find(|i| accepted.contains(i)) {
-                    viol.push(Violation::new("C18", "oversized-header-list-delivered", format!("a request with about {} octets of header list ({} fields, cut into {}-octet fragments) was handed to the application on stream {} although max_header_list_size is {}", est_list, len, if scn.variant % 2 == 0 { "max_frame_size".to_string() } else { "100-400".to_string() }, sid, mhls)));
+                    viol.push(Violation::new("C18", "oversized-header-list-delivered", format!("a request with {} octets of header list (RFC 9113 6.5.2 accounting; flood variant {}: 0/2 cut at max_frame_size, 1 into 100-400 octet fragments, 3 at field boundaries with every frame below 0.8 x the limit) was handed to the application on stream {} although max_header_list_size is {}", est_list, scn.variant, sid, mhls)));
                 }
             }
         }
